@@ -55,6 +55,10 @@ pub struct Observed {
     pub archive_reads: Vec<(u64, u64)>,
     pub http_log: Vec<LoggedRequest>,
     pub truncated_to: Option<u64>,
+    /// (op, path, flags/arg, result) of every open / unlink / rename / mkdir / truncate of the command
+    pub fs_events: Vec<(sys::Op, String, i64, i64)>,
+    pub listing_before: std::collections::BTreeMap<String, (u64, String)>,
+    pub listing_after: std::collections::BTreeMap<String, (u64, String)>,
 }
 
 /// the archive's chunker parameters as a Cfg (from the independent decoder)
@@ -234,11 +238,18 @@ pub fn execute(f: &Fam) -> Observed {
             p.fake_blockdev = f.blockdev;
             s.log.clear();
         });
+        ob.listing_before = scen::listing();
         let r = scen::run(&scen::clone_args("a.cba", "out.bin", &opts));
+        ob.listing_after = scen::listing();
         scen::set_stdin(None);
         ob.outcome = Some(r.outcome);
         ob.output = scen::get_file("out.bin");
         sys::with(|s| {
+            for e in &s.log {
+                if matches!(e.op, sys::Op::Open | sys::Op::Unlink | sys::Op::Rename | sys::Op::Mkdir | sys::Op::Truncate) {
+                    ob.fs_events.push((e.op, s.path_name(e.path).to_string(), e.a, e.ret));
+                }
+            }
             for e in s.events_for("out.bin") {
                 match e.op {
                     sys::Op::Write if e.ret > 0 => ob.writes.push((e.a as u64, e.data.clone().unwrap_or_default())),
